@@ -43,7 +43,7 @@ func init() {
 
 // decCase is g.DecCase; for big bodies the exhaustive prefix case (fn 3) is left out (quadratic).
 func decCase(g *pk.Gen, tok int, body []byte, ctx sx.T, last tds.Package, expected sx.T, render func(tds.Package) sx.T, tag string) {
-	if len(body) > 3000 && g.Want[3] {
+	if len(body) > 1500 && g.Want[3] {
 		g.Want[3] = false
 		g.DecCase(tok, body, ctx, last, expected, render, tag)
 		g.Want[3] = true
